@@ -273,6 +273,7 @@ pub fn run_process<T: Send + 'static>(
     ctx.clock_mode = match spec.entropy % 8 { 0 | 2 | 4 => 1, 6 | 7 => 2, 3 => 3, _ => 0 };
     ctx.clock_seed = spec.entropy;
     let abandoned = ctx.abandoned.clone();
+    let runaway = ctx.runaway.clone();
     let cwd = spec.cwd.clone();
     let gate_for_exit = gate.clone();
     if let Some((g, pid)) = gate {
@@ -309,12 +310,12 @@ pub fn run_process<T: Send + 'static>(
         handle.as_pthread_t()
     };
     let received = loop {
-        match rx.recv_timeout(Duration::from_millis(500)) {
+        match rx.recv_timeout(Duration::from_millis(200)) {
             Ok(v) => break Some(v),
             Err(std::sync::mpsc::RecvTimeoutError::Disconnected) => break None,
             Err(std::sync::mpsc::RecvTimeoutError::Timeout) => {
                 let cpu = thread_cpu_time(pt);
-                if cpu.map(|c| c >= WATCHDOG).unwrap_or(false) || started.elapsed() >= WATCHDOG_WALL {
+                if runaway.load(std::sync::atomic::Ordering::Relaxed) || cpu.map(|c| c >= WATCHDOG).unwrap_or(false) || started.elapsed() >= WATCHDOG_WALL {
                     break None;
                 }
             }
